@@ -56,3 +56,21 @@ pub proof fn lemma_plists_fin(p: v1::Polynomial, g: Map<Seq<u64>, real>)
     requires plists(p, g)
     ensures poly_fin(p.terms@)
 { assert forall|i: int| 0 <= i < p.terms.len() implies fin((#[trigger] p.terms@[i]).coefficient) by { assert(pitems(p.terms@)[i].1 == p.terms@[i].coefficient); } }
+// ---- products over item lists (Quadratic * Quadratic): the exact product accumulated under canonical keys in the order of the two loops; nothing is dropped inside the loops ----
+pub open spec fn grow(g: Map<Seq<u64>, real>, a: (Seq<u64>, F64), b: Seq<(Seq<u64>, F64)>, j: int) -> Map<Seq<u64>, real> decreases j {
+    if j <= 0 { g } else { kbump(grow(g, a, b, j - 1), skey(b[j - 1].0 + a.0), rv(a.1) * rv(b[j - 1].1)) }
+}
+pub open spec fn gmat(a: Seq<(Seq<u64>, F64)>, b: Seq<(Seq<u64>, F64)>, i: int) -> Map<Seq<u64>, real> decreases i {
+    if i <= 0 { Map::empty() } else { grow(gmat(a, b, i - 1), a[i - 1], b, b.len() as int) }
+}
+pub open spec fn rem_gmul(a: Seq<(Seq<u64>, F64)>, b: Seq<(Seq<u64>, F64)>, m: Map<u64, F64>) -> real {
+    let g = gmat(a, b, a.len() as int); ksum(g, pw(m)) - ksum(kdrop(g), pw(m))
+}
+// the weight of a merged key is the product of the weights
+pub proof fn lemma_pw_merge(key: Seq<u64>, r: Seq<u64>, l: Seq<u64>, m: Map<u64, F64>)
+    requires perm(key, r + l)
+    ensures pw(m)(key) == pw(m)(r) * pw(m)(l)
+{
+    lemma_mono_perm(1real, key, r + l, m);
+    lemma_mono_concat(r, l, l.len() as int, m);
+}
